@@ -290,13 +290,12 @@ def run(tier, seed, only=None, pid='C06'):
     timeout_ms = 60000 if tier == 'quick' else 600000
     table = witness.load_table()
 
-    def go():
-        for name, mk in SCENARIOS:
-            if only and name not in only:
-                continue
-            run_gc_scenario(ctx, report, pid, name, mk(), timeout_ms, table)
-    engine.run_in_big_stack(go)
-    report.bounds = {'descriptions': '4: (a) reachable and unreachable entity of every kind incl. imports of all four kinds, call_indirect / memory.init / table.init / data.drop / elem.drop operands, a type used only by an empty multi-value loop, passive/declared/active segments; (b) late-discovered table with two active segments; (c) declared segment mixing live and dead functions, externref expression segment with global.get, dead passive data before live data; (d) only one export reachable',
+    from obligations import gen
+    gl = gen.generated(tier, seed)
+    items = [(pid, name, mk(), timeout_ms, table) for name, mk in SCENARIOS if not only or name in only]
+    items += [(pid, name, sp, timeout_ms, table) for name, sp in gl if not only or name in only]
+    pc.run_parallel(ctx, report, run_gc_scenario, items)
+    report.bounds = {'generated': gen.bounds_text(tier, len(gl)), 'descriptions': '4: (a) reachable and unreachable entity of every kind incl. imports of all four kinds, call_indirect / memory.init / table.init / data.drop / elem.drop operands, a type used only by an empty multi-value loop, passive/declared/active segments; (b) late-discovered table with two active segments; (c) declared segment mixing live and dead functions, externref expression segment with global.get, dead passive data before live data; (d) only one export reachable',
                      'attributes': 'limits, flags, offsets, constants symbolic'}
     report.assumptions = ['behaviour is not executed: "keeps everything reachable and what it refers to" is checked structurally against the reference closure (gcref.py)',
                           'tolerated residue: one memory when data segments are kept and no memory is used; out-of-bounds active element segments of unreferenced local tables are dropped',
